@@ -62,8 +62,7 @@ type knownFinding struct {
 }
 
 type knownFile struct {
-	Findings []knownFinding    `json:"findings"`
-	Fixed    []json.RawMessage `json:"fixed"`
+	Findings []knownFinding `json:"findings"`
 }
 
 // Quick reports whether this is the quick tier.
@@ -98,11 +97,15 @@ func NewRun(id, level string) *Run {
 		}
 	}
 	r.deadline = r.start.Add(budget)
-	if p := os.Getenv("VERIF_KNOWN"); p != "" {
-		if b, err := os.ReadFile(p); err == nil {
-			if err := json.Unmarshal(b, &r.known); err != nil {
-				fmt.Fprintf(os.Stderr, "HARNESS-ERROR: cannot parse %s: %v\n", p, err)
-				os.Exit(2)
+	for _, env := range []string{"VERIF_KNOWN", "VERIF_KNOWN_LOCAL"} {
+		if p := os.Getenv(env); p != "" {
+			if b, err := os.ReadFile(p); err == nil {
+				var kf knownFile
+				if err := json.Unmarshal(b, &kf); err != nil {
+					fmt.Fprintf(os.Stderr, "HARNESS-ERROR: cannot parse %s: %v\n", p, err)
+					os.Exit(2)
+				}
+				r.known.Findings = append(r.known.Findings, kf.Findings...)
 			}
 		}
 	}
